@@ -35,21 +35,22 @@ def suite():
     return rc == 0 and m is not None and m.group(2) == '0', (m.group(0) if m else out[-400:])
 
 
-def demo(prop, which, tag):
+def demo(prop, which, tag, src=None, sanitizer='address'):
     """compile the demonstration against the worktree's current sources and run it; (exit code, tail of output)"""
-    src = os.path.join(SRC, prop, 'demo%s.c' % which)
+    src = src or os.path.join(SRC, prop, 'demo%s.c' % which)
+    os.makedirs('/tmp/mut', exist_ok=True)
     exe = '/tmp/mut/demo_%s_%s_%s' % (prop, which, tag)
     files = []
     for g in LIBC:
         files += sorted(glob.glob(os.path.join(WT, g)))
     extra = []
     txt = open(src).read()
-    cmd = ['gcc', '-std=gnu11', '-g', '-O1', '-fsanitize=address', '-fno-omit-frame-pointer', '-D_GNU_SOURCE', '-DLIBMODULE_LOG_CTX=CORE', '-w'] + \
+    cmd = ['gcc', '-std=gnu11', '-g', '-O1', '-fsanitize=' + sanitizer, '-fno-omit-frame-pointer', '-D_GNU_SOURCE', '-DLIBMODULE_LOG_CTX=CORE', '-w'] + \
           ['-I' + os.path.join(WT, i) for i in INC] + [src] + files + extra + ['-lpthread', '-ldl', '-o', exe]
     rc, out = sh(cmd, cwd=WT)
     if rc != 0:
         return None, 'COMPILE FAILED: ' + out[-1500:]
-    env = dict(os.environ, LM_ROOT=WT, ASAN_OPTIONS='detect_leaks=1:exitcode=66')
+    env = dict(os.environ, LM_ROOT=WT, ASAN_OPTIONS='detect_leaks=1:exitcode=66', TSAN_OPTIONS='exitcode=66')
     try:
         rc, out = sh([exe], cwd=WT, timeout=300, env=env)
     except subprocess.TimeoutExpired:
@@ -112,8 +113,48 @@ def run(verifdir, outdir, ids, tier='quick', props_override=None):
         json.dump(res, open(os.path.join(outdir, mid, 'check_%s.json' % tier), 'w'), indent=1)
 
 
+def confirm_seeded(ids):
+    """re-confirm the kept changes under /verif/seeded against /repo's current HEAD: the patch applies, the unedited suite
+    passes with it, the demonstration passes without it and fails with it -> meta.json 'confirmed'"""
+    seeded = os.path.join(os.path.dirname(os.path.dirname(os.path.abspath(__file__))), 'seeded')
+    ensure_wt()
+    head = sh(['git', '-C', '/repo', 'rev-parse', '--short', 'HEAD'])[1].strip()
+    sh(['git', 'checkout', '-q', '--detach', head], cwd=WT)
+    ok, msg = suite()
+    print('baseline suite at', head, ':', ok, msg, flush=True)
+    for mid in sorted(os.listdir(seeded)):
+        if ids and mid not in ids and mid.split('-')[0] not in ids:
+            continue
+        d = os.path.join(seeded, mid)
+        mp = os.path.join(d, 'meta.json')
+        meta = json.load(open(mp))
+        prop = meta['property']
+        san = meta.get('demo_sanitizer', 'address')
+        sh('git checkout -- .', cwd=WT)
+        res = {}
+        res['demo_exit_without_patch'], out0 = demo(prop, mid[-1], 'clean', src=os.path.join(d, 'demo.c'), sanitizer=san)
+        rc, out = sh(['git', 'apply', os.path.join(d, 'patch.diff')], cwd=WT)
+        res['applies_to_repo_head'] = rc == 0
+        if rc == 0:
+            res['unedited_suite_passes_with_patch'], res['suite'] = suite()
+            res['demo_exit_with_patch'], out1 = demo(prop, mid[-1], 'mut', src=os.path.join(d, 'demo.c'), sanitizer=san)
+        sh('git checkout -- .', cwd=WT)
+        res['repo_head'] = head
+        res['how'] = ('tools/seedeval.py confirm-seeded: scratch worktree of /repo HEAD; cmake --build + ctest (2 entries = 206 cases) with the patch applied '
+                      'alone; demo compiled (gcc -fsanitize=%s, all Lib/**.c) and run without and with the patch' % san)
+        good = bool(res.get('applies_to_repo_head') and res.get('unedited_suite_passes_with_patch') and res.get('demo_exit_without_patch') == 0
+                    and res.get('demo_exit_with_patch') not in (0, None))
+        res['all_confirmed'] = good
+        meta['confirmed'] = res
+        json.dump(meta, open(mp, 'w'), indent=1)
+        print(mid, 'confirmed' if good else 'NOT CONFIRMED', res, flush=True)
+    suite()
+
+
 if __name__ == '__main__':
     if sys.argv[1] == 'confirm':
         confirm(sys.argv[2], sys.argv[3:])
+    elif sys.argv[1] == 'confirm-seeded':
+        confirm_seeded(sys.argv[2:])
     elif sys.argv[1] == 'run':
         run(sys.argv[2], sys.argv[3], sys.argv[4:])
